@@ -2089,8 +2089,9 @@ class LLParser:
                             follow_sets[cur_symbol].add(next_symbol)
                         else:
                             follow_sets[cur_symbol].update(first_sets[next_symbol])
-                            if next_symbol in nullables:
-                                follows_deps[cur_symbol].add(next_symbol)
+                            # (if next_symbol is nullable the loop goes on to the
+                            # symbols which follow it in this production. Whatever
+                            # follows next_symbol in other contexts is irrelevant)
                         if next_symbol not in nullables:
                             break
                     else:
